@@ -73,6 +73,12 @@ def subharnesses(tier):
                 subs.append(('api-%s-n%d-lim%d' % (verb, n, nlim),
                              {'kind': 'api', 'verb': verb, 'n': n,
                               'nlim': nlim}))
+        # the partition is redefined (shrunk, limit lowered) between two
+        # requests handled by the same API process
+        for nlim in (0, 1):
+            subs.append(('api-%s-n0-lim%d-partition_redefined' % (verb, nlim),
+                         {'kind': 'api', 'verb': verb, 'n': 0, 'nlim': nlim,
+                          'redefine': True}))
     return subs
 
 
@@ -144,8 +150,11 @@ def _api(S, spec):
         # installed decorator 5.x no longer has (stub, listed in the evidence)
         decorator.getargspec = inspect.getfullargspec
     import jsonschema
+    import importlib
+    from crosshair.tracers import NoTracing
     from treadmill import exc, utils
     from treadmill.api import allocation as A
+    A = importlib.reload(A)      # no module-level state from earlier paths
     utils.cpu_units = _ORIG.get('cpu_units', utils.cpu_units)
     G = 2 ** 30
     part = {'cpu': '200%', 'memory': '4G', 'disk': '4G', 'limits': []}
@@ -215,9 +224,27 @@ def _api(S, spec):
     with __import__('crosshair.tracers').tracers.NoTracing():
         api = A.API()
     verb = spec['verb']
+    if spec.get('redefine'):
+        # an earlier, harmless request in the same process ...
+        with NoTracing():
+            try:
+                api.reservation.create('tenant/first/cell',
+                                       {'cpu': '0%', 'memory': '0M',
+                                        'disk': '0M', 'partition': 'p',
+                                        'traits': ['t1']})
+            except Exception:       # noqa
+                pass
+        adm.calls[:] = []
+        # ... then the partition is shrunk and the trait limit lowered
+        part.update({'cpu': '100%', 'memory': '2G', 'disk': '2G'})
+        pv = (100, 2 * G, 2 * G)
+        if spec['nlim']:
+            part['limits'] = [{'trait': 't1', 'cpu': '50%', 'memory': '1G',
+                               'disk': '1G'}]
+            lim_vals['t1'] = (50, G, G)
+        S.reach('partition_redefined')
     sent = dict(req)
     accepted, malformed = True, False
-    from crosshair.tracers import NoTracing
     try:
         # every argument is concrete here (the solver only picked the
         # alternatives): the call runs untraced - jsonschema under the tracer
